@@ -142,7 +142,11 @@ def main() -> None:
             consts = res["mods"]["constants"]
             if hasattr(consts, name):
                 rec["found"] = True
-                rec["observed"] = project_plain(getattr(consts, name))
+                got = getattr(consts, name)
+                rec["observed"] = project_plain(got)
+                # a float constant declared by an integer literal: compare exact values (float -> int is exact)
+                if c["declared"]["k"] == "float" and c["declared"]["tok"].lstrip("-").isdigit() and isinstance(got, float) and got.is_integer():
+                    rec["observed"] = {"k": "float", "tok": str(int(got))}
         out.append(rec)
         mm.drop_sdk(res)
 
